@@ -60,6 +60,15 @@ class TranslatorPython(Translator):
         )
 
     def from_ExprOp(self, expr):
+        if expr.op == "<<" and len(expr.args) == 2:
+            # A count >= size gives 0 once masked: bound the count so that
+            # Python never builds an integer of 2**count bits
+            return "((%s << min(%s, 0x%x)) & 0x%x)" % (
+                self.from_expr(expr.args[0]),
+                self.from_expr(expr.args[1]),
+                expr.size,
+                (1 << expr.size) - 1
+            )
         if expr.op in self.op_no_translate:
             args = list(map(self.from_expr, expr.args))
             if len(expr.args) == 1:
